@@ -102,6 +102,11 @@ def enumerate_cases(tier: str):
         for warm in ("1;1;1;0;2;1\n", "1;1;2;0;2;\n", "1;1;0;0;3;relay\n", "1;255;3;0;0;55\n", "1;255;0;0;17;2.0\n", "1;255;4;0;0;ff\n", "junk\n"):
             for line in ("1;5;3;0;3;\n", "255;0;3;0;4;7\n", "1;255;3;0;3;\n", "1;5;3;0;5;\n", "1;255;1;0;2;1\n", "1;5;4;0;3;ff\n", "7;5;1;0;2;1\n"):
                 yield {"version": version, "line": line, "warmup": [warm, warm]}
+    for version in VERSIONS:
+        for size in (65530, 65537, 70000, 300000):
+            yield {"version": version, "line": "12;3;1;0;47;" + "p" * size + "\n"}
+            yield {"version": version, "line": "12;255;3;0;9;" + "a;" * (size // 2) + "\n"}
+            yield {"version": version, "line": "12;3;1;0;" + "p" * size + "\n"}
     versions = VERSIONS if tier == "thorough" else ("1.4", "2.2")
     reps = (NODE_REPS, CHILD_REPS, CMD_REPS, ACK_REPS, TYPE_REPS)
     for version in versions:
